@@ -11,7 +11,7 @@ vars == <<tid, l, fails, ex>>
 R(f, e) == [fails |-> f, ex |-> e]
 G(c, ok) == IF ok THEN {} ELSE {c}
 
-Step(ev) ==
+FitStep(ev) ==
   LET M == DM!Gram(ev.L)
       d == Len(ev.M0)
       wOK == WitnessesOK(M, ev.M0, ev.vab, ev.vcd, ev.w, ev.wn, ev.g, ev.q1, ev.q2, ev.P, ev.P0, ev.chol, ev.chol0)
@@ -42,6 +42,13 @@ Step(ev) ==
     \cup (IF noViolationUnderPrior THEN {"C12.prior_returned_when_all_constraints_hold"} ELSE {})
     \cup (IF stoppedEarly THEN {"C12.early_stop_is_stationary_within_tol"} ELSE {})
     \cup (IF ev.has_scaled THEN {"C12.weights_are_scale_invariant"} ELSE {}))
+
+(* "LsmlRun": the call history of one real fit (every _total_loss / _gradient call of the solver, observed by wrapping
+   the two methods) followed by the line-search machine of LSML.tla *)
+RunStep(ev) ==
+  IF ev.exc # "" THEN R({"G12.recorded_fit_returns"}, {})
+  ELSE R(LineSearchFails(ev), LineSearchClauses)
+Step(ev) == IF ev.ev = "LsmlRun" THEN RunStep(ev) ELSE FitStep(ev)
 
 Init == tid \in 1..Len(Traces) /\ l = 1 /\ fails = {} /\ ex = {}
 Next == /\ l <= Len(Traces[tid].events)
